@@ -29,6 +29,8 @@ type Link struct {
 	s2r  dirq
 	r2s  dirq
 	Torn bool // forced teardown: every pending and future call fails
+	// TornByCancel: the teardown was the cancellation of the stream's own context: calls fail with context.Canceled
+	TornByCancel bool
 
 	Log []Pkt
 
@@ -133,6 +135,16 @@ func (e *End) Break() {
 	e.l.mu.Unlock()
 }
 
+// brokenErr is what calls on a torn-down stream return: the transport's own error, or - when the stream was torn
+// down by cancelling the stream's context (TornByCancel) - context.Canceled, which says nothing about the callers'
+// contexts.
+func (l *Link) brokenErr() error {
+	if l.TornByCancel {
+		return context.Canceled
+	}
+	return ErrBroken
+}
+
 func (l *Link) enter(key string) {
 	l.mu.Lock()
 	l.inCall[key]++
@@ -185,7 +197,7 @@ func (e *End) SendMsg(m interface{}) error {
 		return fmt.Errorf("netsim: injected %s failure", key)
 	}
 	if e.l.Torn || e.Broken {
-		return ErrBroken
+		return e.l.brokenErr()
 	}
 	if e.PeerGone {
 		return io.ErrClosedPipe
@@ -219,7 +231,7 @@ func (e *End) RecvMsg(m interface{}) error {
 		return fmt.Errorf("netsim: injected %s failure", key)
 	}
 	if e.l.Torn || e.Broken {
-		return ErrBroken
+		return e.l.brokenErr()
 	}
 	if len(e.in.q) == 0 {
 		if e.in.closed {
